@@ -158,7 +158,13 @@ def c03RunMonitors (st : St) (f : Frame) (clkNs : Nat) (impl : String) : List (S
       let reqOpts := reqBootp.drop 240
       -- (1) well-formed reply to THIS request
       let wf : List (String × String × String) :=
-        match replyDefect f g p with
+        -- the server MAC and address of the cache the IMPLEMENTATION answered from
+        let im := st.impl.maps
+        let cfgB := im.cfg.getD []
+        let poolB := ((hitKey f im p).bind fun (mapName, key) =>
+            (AMap.lookup (if mapName == "vlan" then im.vlan else if mapName == "cid" then im.cid else im.sub) key).bind
+              fun a => AMap.lookup im.pools (rdBytes a 0 4)).getD []
+        match replyDefect f g p (rdBytes cfgB 0 6) (leBytes 4 (serverIpOf cfgB poolB).toNat) with
         | some d => [("malformed-reply", "none", d)]
         | none =>
           let got := opt 53 (g.drop (p.dhcpOff + 240))
